@@ -282,3 +282,46 @@ Definition e_P20 (v : uval) : uval :=
     | KAggregate sec =>
         Nat.eqb (length calls) (length outs) && (sum_outs outs + getZ (arg 5 v) =? sum_calls calls)%Z
     end.
+
+(* ---- C13 ---- *)
+From PV Require Import Model.EventMgr Spec.C13.
+Definition getsub (v : uval) : sub :=
+  match getN (arg 0 v) with 0%N => Plain (getnat (arg 1 v)) | _ => Once (getnat (arg 1 v)) (getnat (arg 2 v)) end.
+Definition vsub (s : sub) : uval :=
+  match s with Plain c => VL [vN 0; vnat c] | Once c w => VL [vN 1; vnat c; vnat w] end.
+Definition getscript (v : uval) : script :=
+  fun c => let e := nth c (getL v) (VL []) in (getnat (arg 0 e), getopt getZ (arg 1 e)).
+Definition geteop (v : uval) : eop :=
+  match getN (arg 0 v) with
+  | 0%N => Subscribe (getnat (arg 1 v)) (getnat (arg 2 v))
+  | 1%N => SubscribeOnce (getnat (arg 1 v)) (getnat (arg 2 v))
+  | 2%N => Unsubscribe (getnat (arg 1 v)) (getsub (arg 2 v))
+  | 3%N => Spawn (getnat (arg 1 v)) (getZ (arg 2 v))
+  | 4%N => Resume (getnat (arg 1 v))
+  | 5%N => Get (getnat (arg 1 v)) (getopt getZ (arg 2 v))
+  | _ => Advance (getZ (arg 1 v))
+  end.
+Definition vlev (e : lev) : uval :=
+  match e with
+  | LSpawn t n x snap => VL [vN 0; vnat t; vnat n; VZ x; vlist vsub snap]
+  | LCalled t s x => VL [vN 1; vnat t; vsub s; VZ x]
+  | LStored t n x => VL [vN 2; vnat t; vnat n; VZ x]
+  | LGot w n x => VL [vN 3; vnat w; vnat n; VZ x]
+  | LTimeout w n => VL [vN 4; vnat w; vnat n]
+  | LUnsub n s f => VL [vN 5; vnat n; vsub s; vbool f]
+  | LSub n s => VL [vN 6; vnat n; vsub s]
+  end.
+Definition getlev (v : uval) : lev :=
+  match getN (arg 0 v) with
+  | 0%N => LSpawn (getnat (arg 1 v)) (getnat (arg 2 v)) (getZ (arg 3 v)) (map getsub (getL (arg 4 v)))
+  | 1%N => LCalled (getnat (arg 1 v)) (getsub (arg 2 v)) (getZ (arg 3 v))
+  | 2%N => LStored (getnat (arg 1 v)) (getnat (arg 2 v)) (getZ (arg 3 v))
+  | 3%N => LGot (getnat (arg 1 v)) (getnat (arg 2 v)) (getZ (arg 3 v))
+  | 4%N => LTimeout (getnat (arg 1 v)) (getnat (arg 2 v))
+  | 5%N => LUnsub (getnat (arg 1 v)) (getsub (arg 2 v)) (getbool (arg 3 v))
+  | _ => LSub (getnat (arg 1 v)) (getsub (arg 2 v))
+  end.
+(* [script; ops] -> chronological log *)
+Definition e_erun (v : uval) : uval := vlist vlev (rev (log (erun (getscript (arg 0 v)) (map geteop (getL (arg 1 v)))))).
+(* [script; chronological log] *)
+Definition e_P13 (v : uval) : uval := vbool (P13 (getscript (arg 0 v)) (map getlev (getL (arg 1 v)))).
